@@ -103,6 +103,9 @@ def instr_oracle(prog, obs, impl):
                 d = out[op['out']]
                 m = re.match(r"Add (.*?) to a", line)
                 if m:
+                    held = [s for s, a in d['cont'].items() if a > 0]
+                    if len(m.group(1).split(', ')) != len(held):
+                        fails.append((i, f"the new container holds {len(held)} substances, its instruction names {len(m.group(1).split(', '))}: {line!r}"))
                     for part in m.group(1).split(', '):
                         pm = re.match(AMOUNT + r" of (.+)$", part)
                         if not pm:
